@@ -28,6 +28,8 @@ fn dictionary() -> Vec<&'static str> {
         "99999999999999999999", "$ffffffffffffffffff", "0b1111111111111111111111111111111111111111111111111111111111111111111111",
         "07777777777777777777777777", "1<<64", "1<<-1", "exp2(64)", "1/0", "-(-0x7fffffffffffffff-1)", "undefined", "''", "\"unterminated",
         "low()", "@0", "(", "", "cyc_a", "a = 1", "a = r16", "a = a", "ATmega48", "low(", "'ab'", "1 2 3 4 5 6 7",
+        // names that are already something else in the 'after-label-and-def' context
+        "lbl = 1", "dreg = 1", "pc = 1", "svar = r16", "lbl = r16", "dreg", "svar", "pc",
     ]
 }
 
@@ -382,7 +384,7 @@ pub fn run(tier: Tier) -> i32 {
     let coverage = cov(json!({
         "evaluations": cases.len(),
         "distinct_nontrivial": distinct_texts,
-        "rule": "every single-line program head x operand list of length 0..2 (thorough 0..3, third operand from a reduced dictionary) over a 46-text dictionary of valid, boundary and hostile operands x 10 context prefixes (segments, reduced and Tiny1x devices, cyclic .equ, self- and mutually-calling macros, open .if 0 / .macro, definitions), heads = every mnemonic and every directive in both '.' and '#' spelling + unknown names; geometric size ladders (nesting depth of parentheses/unary/function chains, left/right-leaning operator chains, operand-list, line, label, string and number lengths, line counts, nested conditionals, .equ chains, macro and include nesting, .org/.byte magnitudes 2^8..2^63 +-1 and negative); every single token of every corpus program deleted, duplicated and replaced by every dictionary entry. Each case runs in a sandboxed worker. distinct_nontrivial = distinct source texts",
+        "rule": "every single-line program head x operand list of length 0..2 (thorough 0..3, third operand from a reduced dictionary) over a 54-text dictionary of valid, boundary and hostile operands x 10 context prefixes (segments, reduced and Tiny1x devices, cyclic .equ, self- and mutually-calling macros, open .if 0 / .macro, definitions), heads = every mnemonic and every directive in both '.' and '#' spelling + unknown names; geometric size ladders (nesting depth of parentheses/unary/function chains, left/right-leaning operator chains, operand-list, line, label, string and number lengths, line counts, nested conditionals, .equ chains, macro and include nesting, .org/.byte magnitudes 2^8..2^63 +-1 and negative); every single token of every corpus program deleted, duplicated and replaced by every dictionary entry. Each case runs in a sandboxed worker. distinct_nontrivial = distinct source texts",
         "exhaustive": true,
         "single_line_programs": n_single,
         "size_probes": n_probe,
